@@ -241,6 +241,32 @@ func (c *EvalCtx) eval(e Expr) TV {
 	case *CallE:
 		return c.evalCall(e)
 	case *Unary:
+		if e.Op == "&" {
+			// address of a package-level variable
+			var pkg *types.Package
+			var name string
+			switch x := e.X.(type) {
+			case *Ident:
+				pkg, name = c.pkg, x.Name
+			case *Selector:
+				if id, ok := x.X.(*Ident); ok {
+					pkg, name = c.eng.findPackage(c.pkg, id.Name), x.Sel
+				}
+			}
+			if pkg == nil {
+				evalFail("& needs a package-level variable")
+			}
+			v, ok := pkg.Scope().Lookup(name).(*types.Var)
+			sp := c.eng.prog.Package(pkg)
+			if !ok || sp == nil {
+				evalFail("&%s: no such package-level variable", name)
+			}
+			g, ok := sp.Members[name].(*ssa.Global)
+			if !ok {
+				evalFail("&%s: global not found", name)
+			}
+			return TV{V: globalRef(g), T: types.NewPointer(v.Type())}
+		}
 		x := c.eval(e.X)
 		switch e.Op {
 		case "!":
